@@ -28,7 +28,7 @@ def budget(tier):
 
 
 def strategy(tier):
-    general = gen_spec(**{**tier_opts(tier), **dict(allow_rels=True, allow_rdep=True)})
+    general = gen_spec(**{**tier_opts(tier), **dict(allow_rels=True, allow_rdep=True, allow_nm=True)})
     # one case in five is a condition() block reached through a guarded call chain (C12's generator): its branches
     # are nested transactions, for which this property demands: run(branch) implies the enclosing body runs, the branch condition (its ready) holds and its callees are ready
     cond = c12.strategy(tier).map(lambda sp: {"gen": "condition", "spec": sp})
@@ -56,5 +56,10 @@ def run_case(case):
         res.labels.append("blocked_by_validation")
     if orc.stats["blocked_by_callee"]:
         res.labels.append("blocked_by_callee")
-    res.nontrivial = orc.stats["blocked_by_callee"] > 0 or orc.stats["blocked_by_validation"] > 0
+    for k in ("callee_parent", "ready_dependency"):
+        if orc.stats["blocked_by_" + k]:
+            res.labels.append("blocked_by_" + k)
+    res.nontrivial = any(
+        orc.stats["blocked_by_" + k] > 0 for k in ("callee", "validation", "callee_parent", "ready_dependency")
+    )
     return res
